@@ -147,16 +147,16 @@ func c18ResultsSx(flat []c18Flat) hx.Sx {
 func c18WFTags(flat []c18Flat) (wfSx hx.Sx, wf bool, tags []string) {
 	wa, wb, wc, wd, wan := c18WF(flat)
 	if !wan {
-		tags = append(tags, "c18_illformed_hash_two_stamps")
+		tags = append(tags, "c18_series_hash_two_stamps")
 	}
 	if !wb {
-		tags = append(tags, "c18_illformed_point_two_hash_pairs")
+		tags = append(tags, "c18_series_point_two_hash_pairs")
 	}
 	if !wc {
-		tags = append(tags, "c18_illformed_trial_two_baseline_hashes")
+		tags = append(tags, "c18_series_trial_two_baseline_hashes")
 	}
 	if !wd {
-		tags = append(tags, "c18_illformed_equal_dates")
+		tags = append(tags, "c18_series_same_instant_two_experiments")
 	}
 	return hx.L(hx.Bool(wa), hx.Bool(wb), hx.Bool(wc), hx.Bool(wd), hx.Bool(wan)), wan && wb && wc && wd, tags
 }
@@ -495,8 +495,8 @@ func c18GenFilesWorld(r *hx.Rng) c18FilesWorld {
 		}
 		var hashes []int
 		nh := 1 + r.Intn(2)
-		if omit["nh"] || omit["ser"] {
-			nh = 1 // one hash, one stamp: the empty hash keeps a single series stamp
+		if (omit["nh"] || omit["ser"]) && r.Chance(0.7) {
+			nh = 1 // one hash, one stamp: the empty hash keeps a single series stamp (else: finding A / B)
 		}
 		for k := 0; k < nh; k++ {
 			if shared {
@@ -639,6 +639,10 @@ func c18GenHistories(o *hx.Out, r *hx.Rng, tier string) error {
 		switch i % 4 {
 		case 0, 1:
 			w = c18GenIncWorld(ri)
+			if i%8 == 1 {
+				// a set outside the well-formed domain (judged up to the places of the findings)
+				w = c18GenIllWorld(ri)
+			}
 		case 2:
 			w = c18GenInterleave(ri)
 		default:
@@ -654,17 +658,22 @@ func c18GenHistories(o *hx.Out, r *hx.Rng, tier string) error {
 	rf := r.Split()
 	for i := 0; i < nfiles; i++ {
 		w := c18GenFilesWorld(rf)
-		// prefer worlds inside the well-formed domain (the specification speaks about those)
-		for try := 0; try < 5; try++ {
-			var all []c18Result
-			for _, f := range w.Files {
-				all = append(all, f.results...)
+		// every world is judged, whatever the keys of its files add up to: a set
+		// outside the well-formed domain is compared with the specification up to
+		// the places of the recorded findings (RunC18.series_known); every other
+		// world is re-drawn at most twice so that most sets stay inside
+		if i%3 != 0 {
+			for try := 0; try < 2; try++ {
+				var all []c18Result
+				for _, f := range w.Files {
+					all = append(all, f.results...)
+				}
+				fl, _ := c18Flatten(all)
+				if _, wf, _ := c18WFTags(fl); wf {
+					break
+				}
+				w = c18GenFilesWorld(rf)
 			}
-			fl, _ := c18Flatten(all)
-			if _, wf, _ := c18WFTags(fl); wf {
-				break
-			}
-			w = c18GenFilesWorld(rf)
 		}
 		if err := c18FilesCase(o, rf, dir, w); err != nil {
 			return err
